@@ -307,32 +307,9 @@ def run_check(pid, tier, verif_seed, procs, budget_s, max_runs=None, quiet_ok=Fa
             exit_code = 2
         for (clause, site, what), cnt in sorted(agg.known.items()):
             lines.append('KNOWN-FINDING: property=%s %s [clause=%s site=%s runs=%d]' % (pid, what, clause, site, cnt))
-        replays = []
         if unknown and exit_code == 0:
-            r, new = unknown[0]
-            clause = new[0]['clause']
-            try:
-                m = pool.submit(_minimise, pid, r['taken'], clause).result(timeout=900)
-            except Exception:
-                m = {'ok': False, 'why': traceback.format_exc(), 'overrides': r['taken'], 'execs': 0}
-            if not m['ok']:
-                print('HARNESS-ERROR violation does not replay from its decision list (%s); original: %r'
-                      % (m.get('why'), new[0]))
-                exit_code = 2
-            else:
-                rr = pool.submit(_replay_in_worker, pid, m['overrides'], True).result(timeout=600)
-                path = write_replay(pid, r, m, rr, clause)
-                ok, out = confirm_replay(pid, path, clause)
-                if ok:
-                    lines.append('VIOLATION property=%s replay=%s' % (pid, path))
-                    lines.append('  clause=%s site=%s: %s' % (clause, new[0]['site'], new[0]['text']))
-                    lines.append('  minimised to %d non-zero decisions in %d re-executions; replay confirmed in a fresh interpreter'
-                                 % (len(m['overrides']), m['execs']))
-                    replays.append(path)
-                    exit_code = 1
-                else:
-                    print('HARNESS-ERROR violation not reproducible in a fresh interpreter (%s): %s' % (path, out[-1500:]))
-                    exit_code = 2
+            exit_code, more = report_violation(pid, pool, unknown)
+            lines.extend(more)
         sample_logs = []
         if exit_code == 0 and agg.samples:
             try:
@@ -356,6 +333,53 @@ def run_check(pid, tier, verif_seed, procs, budget_s, max_runs=None, quiet_ok=Fa
               % (pid, tier, agg.runs, len(agg.sigs), dict(agg.outcomes), wall,
                  (' probes_at_zero=%s' % zero) if zero else ''))
     return exit_code
+
+
+def report_violation(pid, pool, unknown, max_candidates=6, min_args=()):
+    """minimise, write the replay file and confirm it in a fresh interpreter.  A violation that only shows because of state
+    that an earlier run left in the worker process (a cache inside the SUT) does not reproduce from its decision list in a
+    fresh interpreter: such a candidate is skipped and the next violating run is tried; a minimised list that stops
+    reproducing falls back to the full (confirmed) list.  Returns (exit code, output lines)."""
+    lines = []
+    skipped = 0
+    last_out = ''
+    for r, new in unknown[:max_candidates]:
+        clause = new[0]['clause']
+        # 1. does the full decision list reproduce in a fresh interpreter?
+        full = {'ok': True, 'overrides': dict(r['taken']), 'execs': 0}
+        path = write_replay(pid, r, full, r, clause)
+        ok, out = confirm_replay(pid, path, clause)
+        if not ok:
+            skipped += 1
+            last_out = out
+            continue
+        # 2. minimise in a worker; keep the minimised list only if it still reproduces in a fresh interpreter
+        try:
+            m = pool.submit(_minimise, pid, r['taken'], clause, *min_args).result(timeout=1200)
+        except Exception:
+            m = {'ok': False, 'why': traceback.format_exc(), 'overrides': r['taken'], 'execs': 0}
+        note = ''
+        if m.get('ok'):
+            rr = pool.submit(_replay_in_worker, pid, m['overrides'], True).result(timeout=600)
+            path = write_replay(pid, r, m, rr, clause)
+            ok2, _ = confirm_replay(pid, path, clause)
+        else:
+            ok2 = False
+        if not ok2:
+            rr = pool.submit(_replay_in_worker, pid, full['overrides'], True).result(timeout=600)
+            path = write_replay(pid, r, full, rr, clause)
+            m = full
+            note = ' (not minimised: the minimised list did not reproduce in a fresh interpreter)'
+        lines.append('VIOLATION property=%s replay=%s' % (pid, path))
+        lines.append('  clause=%s site=%s: %s' % (clause, new[0]['site'], new[0]['text']))
+        lines.append('  replay file holds %d non-zero decisions after %d re-executions%s; confirmed in a fresh interpreter%s'
+                     % (len(m['overrides']), m.get('execs', 0), note,
+                        ('; %d earlier candidate(s) depended on state left by other runs in the worker process and were skipped'
+                         % skipped) if skipped else ''))
+        return 1, lines
+    print('HARNESS-ERROR %d violating run(s) found, none reproduces from its decision list in a fresh interpreter '
+          '(first: %r): %s' % (min(len(unknown), max_candidates), unknown[0][1][0], last_out[-1200:]))
+    return 2, lines
 
 
 def _fixed_ov(fixed, label):
